@@ -264,6 +264,7 @@ def check(chk):
 
     # ------------------------------------------------------------- FRESH-0
     _fresh_queue(chk, f_peq)
+    _resume_before_stacking(chk, f_peq)
 
     # ------------------------------------------------------------- FWD-1
     _forwarding(chk, repo, em)
@@ -323,6 +324,54 @@ def _fresh_queue(chk, f_peq):
                path=cfg.fmt_path(path, f_peq) if path else None)
     if k < 2:
         chk.missing("FRESH-0", "the drain loop takes the pending deque at its start and after every dispatch that posted events (`<local> = self.event_queue`, found %d of 2)" % k, f_peq)
+
+
+def _resume_before_stacking(chk, f_peq):
+    """RESUME-1: a batch that is stacked on the suspended batches is either non-empty or the stack below it is
+    empty.  Between taking an event out of the current batch and stacking that batch (`<inner>.appendleft(<batch>)`)
+    every path passes one of: the resume step (`<batch> = <inner>.popleft()`), the outcome "nothing is suspended"
+    of a test of <inner>, or the outcome "the batch still has events" of a test of <batch>.  Otherwise an emptied
+    batch lands on top of a suspended one, the drain loop ends when the top runs empty and the suspended events
+    are never dispatched (and completion callbacks run without them)."""
+    cfg = f_peq.cfg()
+    pushes = []
+    for n in cfg.nodes:
+        if n.kind != "stmt":
+            continue
+        for c in n.calls():
+            if isinstance(c.func, ast.Attribute) and c.func.attr in ("appendleft", "append", "insert") \
+                    and isinstance(c.func.value, ast.Name) and c.args and isinstance(c.args[-1], ast.Name):
+                pushes.append((n, c.func.value.id, c.args[-1].id))
+    # only deques of batches: the pushed name is also drained with popleft()
+    drained = {}
+    for n in cfg.nodes:
+        if n.kind == "stmt" and isinstance(n.ast, ast.Assign) and isinstance(n.ast.value, ast.Call) \
+                and isinstance(n.ast.value.func, ast.Attribute) and n.ast.value.func.attr == "popleft" \
+                and isinstance(n.ast.value.func.value, ast.Name):
+            drained.setdefault(n.ast.value.func.value.id, []).append(n)
+    pushes = [(n, inner, batch) for n, inner, batch in pushes if batch in drained and inner in drained]
+    if not pushes:
+        chk.missing("RESUME-1", "process_event_queue stacks the current batch on the suspended ones (`<inner>.appendleft(<batch>)`)", f_peq)
+        return
+    for pn, inner, batch in pushes:
+        takes = [n for n in drained[batch] if not (isinstance(n.ast.targets[0], ast.Name) and n.ast.targets[0].id == inner)]
+        resumes = [n.id for n in drained[inner] if isinstance(n.ast.targets[0], ast.Name) and n.ast.targets[0].id == batch]
+        chk.ob("RESUME-1", "a suspended batch is resumed when the current one runs empty (`%s = %s.popleft()`)" % (batch, inner),
+               bool(resumes), f_peq.where(pn.ast), construct=f_peq.ident, text="resume step present for " + batch)
+        via = set(resumes)
+        for b in cfg.nodes:
+            if b.kind == "branch" and b.tag not in ("iter", "exhausted") and isinstance(b.ast, ast.Name):
+                if (b.ast.id == inner and b.value is False) or (b.ast.id == batch and b.value is True):
+                    via.add(b.id)
+        for t in takes:
+            path = cfg.path_avoiding(t.id, [pn.id], via, ignore_exc=True)
+            chk.ob("RESUME-1", "no emptied batch is stacked above a suspended one", path is None, f_peq.where(pn.ast),
+                   detail="after `%s` the batch may be empty while batches are suspended; stacking it hides them: the "
+                          "loop ends when it is popped again and the suspended events are never dispatched"
+                          % short(t.ast, 50),
+                   construct=f_peq.ident, text="stack %s on %s after taking an event" % (batch, inner),
+                   path=cfg.fmt_path(path, f_peq) if path else None, nontrivial=True)
+    chk.floor("RESUME-1", 2)
 
 
 def _names_in_args(call):
@@ -1010,6 +1059,10 @@ def battery():
         M("condition on posted kwargs only", E, "not handler.condition.evaluate(merged_kwargs)", "not handler.condition.evaluate(kwargs)", "DOM-2", nth=1),
         M("condition inverted", E, "if handler.condition is not None and not handler.condition.evaluate(merged_kwargs):", "if handler.condition is not None and handler.condition.evaluate(merged_kwargs):", "DOM-2", nth=0),
         M("condition dropped in sequential", E, "            if handler.condition is not None and not handler.condition.evaluate(merged_kwargs):\n                continue\n\n            # log if debug is enabled and this event is not the timer tick", "            # log if debug is enabled and this event is not the timer tick", "DOM-2"),
+        M("resume only when nothing was posted", E, "                    if not next_queue and inner_queue:\n                        next_queue = inner_queue.popleft()\n\n                    if event.type", "                    if event.type", "RESUME-1",
+          also=[(E, "                        self.event_queue = deque()\n\n            # when all", "                        self.event_queue = deque()\n                    elif not next_queue and inner_queue:\n                        next_queue = inner_queue.popleft()\n\n            # when all")]),
+        M("twin: stack only a non-empty batch, resume afterwards", E, "                    if not next_queue and inner_queue:\n                        next_queue = inner_queue.popleft()\n\n                    if event.type", "                    if event.type", None,
+          also=[(E, "                        inner_queue.appendleft(next_queue)\n                        next_queue = self.event_queue\n                        self.event_queue = deque()\n\n            # when all", "                        if next_queue:\n                            inner_queue.appendleft(next_queue)\n                        next_queue = self.event_queue\n                        self.event_queue = deque()\n                    elif not next_queue and inner_queue:\n                        next_queue = inner_queue.popleft()\n\n            # when all")]),
         M("synchronous dispatch when idle", E, "            self.machine.clock.loop.call_soon(self.process_event_queue)", "            self.process_event_queue()", ("OWN-2", "DOM-1")),
         M("handler drains the queue", "mpf/core/mode.py", "        self._setup_device_control_events()\n", "        self._setup_device_control_events()\n        self.machine.events.process_event_queue()\n", "OWN-2"),
         M("callback called directly", E, "            self.callback_queue.append((callback, kwargs))\n\n    def process_event_queue", "            callback(**kwargs)\n\n    def process_event_queue", "DOM-3"),
